@@ -34,7 +34,7 @@ type eSRef struct {
 }
 
 type eStmt struct {
-	k    string // skip seq ite setloc setfld setarg setarr setbuf bind copy calls
+	k    string // skip seq ite loop setloc setfld setarg setarr setbuf bind copy calls
 	n, m int
 	mark string
 	e    *eExpr
@@ -172,6 +172,8 @@ func (s *eStmt) tokens() string {
 		return "seq " + s.a.tokens() + " " + s.b.tokens()
 	case "ite":
 		return "ite " + s.e.tokens() + " " + s.a.tokens() + " " + s.b.tokens()
+	case "loop":
+		return "loop " + s.e.tokens() + " " + s.a.tokens()
 	case "setloc":
 		return fmt.Sprintf("setloc %d %s", s.n, s.e.tokens())
 	case "setfld":
@@ -206,6 +208,12 @@ func (s *eStmt) wuffs(ind string, b *strings.Builder) {
 			s.b.wuffs(ind+"\t", b)
 		}
 		fmt.Fprintf(b, "%s}\n", ind)
+	case "loop":
+		// every loop of the fragment advances the one counter local, so that all
+		// programs terminate (the C runs execute them)
+		fmt.Fprintf(b, "%swhile (vi < 3) and (%s <> 0) {\n%s\tvi += 1\n", ind, s.e.wuffs(), ind)
+		s.a.wuffs(ind+"\t", b)
+		fmt.Fprintf(b, "%s}\n", ind)
 	case "setloc":
 		fmt.Fprintf(b, "%sv%d = %s\n", ind, s.n, s.e.wuffs())
 	case "setfld":
@@ -235,6 +243,8 @@ func (s *eStmt) hasWrite() bool {
 	switch s.k {
 	case "seq", "ite":
 		return s.a.hasWrite() || s.b.hasWrite() || (s.e != nil && s.e.hasImpureCall())
+	case "loop":
+		return s.a.hasWrite() || s.e.hasImpureCall()
 	case "setfld", "setarr", "setbuf", "copy":
 		return true
 	case "bind":
@@ -245,6 +255,48 @@ func (s *eStmt) hasWrite() bool {
 		return s.e.hasImpureCall()
 	}
 	return false
+}
+
+// hasDefiniteWrite: does the statement contain a construct that the effect rule
+// forbids outright in a pure method (as opposed to a store through a local
+// slice, which is fine while that local is null)?  `effs` are the declared
+// effects of the program's methods: a call whose CALLEE is impure counts
+// whatever its call-site mark says.  On a correct front end no accepted
+// program has such a construct in a pure method, so every accepted program
+// that does is compiled and run (they come first in the C-run queue).
+func (s *eStmt) hasDefiniteWrite(effs []string) bool {
+	switch s.k {
+	case "seq", "ite":
+		return s.a.hasDefiniteWrite(effs) || s.b.hasDefiniteWrite(effs) || s.e.callsImpure(effs)
+	case "loop":
+		return s.a.hasDefiniteWrite(effs) || s.e.callsImpure(effs)
+	case "setfld", "setarr", "setarg", "copy":
+		return true
+	case "setbuf":
+		return s.s.k != "sl" || s.e.callsImpure(effs) || s.s.callsImpure(effs)
+	case "bind":
+		return s.s.callsImpure(effs)
+	case "calls":
+		return s.mark == "impure" || (s.m < len(effs) && effs[s.m] == "impure") || s.e.callsImpure(effs)
+	case "setloc":
+		return s.e.callsImpure(effs)
+	}
+	return false
+}
+
+// callsImpure: an impure call-site mark, or a call of a method declared impure.
+func (e *eExpr) callsImpure(effs []string) bool {
+	if e == nil {
+		return false
+	}
+	if e.k == "call" && (e.mark == "impure" || (e.m < len(effs) && effs[e.m] == "impure")) {
+		return true
+	}
+	return e.l.callsImpure(effs) || e.r.callsImpure(effs)
+}
+
+func (s eSRef) callsImpure(effs []string) bool {
+	return s.k == "ss" && (s.lo.callsImpure(effs) || s.hi.callsImpure(effs))
 }
 
 func (e *eExpr) hasImpureCall() bool {
@@ -361,8 +413,8 @@ func (g *effGen) pureExpr1() *eExpr {
 }
 
 func (g *effGen) stmt(d int) *eStmt {
-	k := g.r.Intn(14)
-	if d <= 0 && (k == 0 || k == 1) {
+	k := g.r.Intn(15)
+	if d <= 0 && (k == 0 || k == 1 || k == 14) {
 		k = 2 + g.r.Intn(12)
 	}
 	// writes are rarer in pure methods (else nearly everything is rejected)
@@ -378,6 +430,8 @@ func (g *effGen) stmt(d int) *eStmt {
 			b = g.stmt(d - 1)
 		}
 		return &eStmt{k: "ite", e: g.cond(), a: g.stmt(d - 1), b: b}
+	case 14:
+		return &eStmt{k: "loop", e: g.cond(), a: g.stmt(d - 1)}
 	case 2, 10:
 		return &eStmt{k: "setloc", n: g.r.Intn(2), e: g.rhs()}
 	case 3:
@@ -484,7 +538,7 @@ func effWuffs(ms []eMethod) string {
 	b.WriteString("pub struct foo?(\n\tf0 : base.u32,\n\tf1 : base.u32,\n\tarr0 : array[4] base.u8,\n\tarr1 : array[4] base.u8,\n)\n\n")
 	for i, m := range ms {
 		fmt.Fprintf(&b, "pri func foo.m%d%s(x: base.u32, s: slice base.u8, t: roslice base.u8, pb: ptr base.pixel_buffer) base.u32[..= 3] {\n", i, markStr(m.eff))
-		b.WriteString("\tvar v0 : base.u32\n\tvar v1 : base.u32\n\tvar ls : slice base.u8\n\tvar lt : roslice base.u8\n")
+		b.WriteString("\tvar v0 : base.u32\n\tvar v1 : base.u32\n\tvar vi : base.u32\n\tvar ls : slice base.u8\n\tvar lt : roslice base.u8\n")
 		m.body.wuffs("\t", &b)
 		fmt.Fprintf(&b, "\treturn (%s & 3)\n}\n\n", m.result.wuffs())
 	}
@@ -524,16 +578,29 @@ func emitEff(r *hlib.Run, ms []eMethod, v, msg string, suspicious *[]suspProg, s
 		r.Fail("effects:frontend-"+v, msg, src)
 	}
 	if v == "ok" {
+		definite, maybe := false, false
+		effs := make([]string, len(ms))
 		for i, m := range ms {
-			if m.eff == "pure" && (m.body.hasWrite() || m.result.hasImpureCall()) {
-				r.Count("tcheck:accepted-pure-with-write-construct")
-				key := toks
-				if !seen[key] && len(*suspicious) < 200 {
-					seen[key] = true
-					*suspicious = append(*suspicious, suspProg{src, toks})
-				}
-				_ = i
-				break
+			effs[i] = m.eff
+		}
+		for _, m := range ms {
+			if m.eff != "pure" {
+				continue
+			}
+			if m.body.hasDefiniteWrite(effs) || m.result.callsImpure(effs) {
+				definite = true
+			} else if m.body.hasWrite() {
+				maybe = true
+			}
+		}
+		if definite || maybe {
+			r.Count("tcheck:accepted-pure-with-write-construct")
+			if definite {
+				r.Count("tcheck:accepted-pure-with-forbidden-construct")
+			}
+			if !seen[toks] && len(*suspicious) < 400 {
+				seen[toks] = true
+				*suspicious = append(*suspicious, suspProg{src, toks, definite})
 			}
 		}
 	}
@@ -552,6 +619,8 @@ func effCorners() [][]eMethod {
 		out = append(out,
 			one(eff, &eStmt{k: "setfld", n: 0, e: lit(1)}),
 			one(eff, &eStmt{k: "setarg", e: lit(1)}),
+			one(eff, &eStmt{k: "loop", e: &eExpr{k: "arg"}, a: &eStmt{k: "setfld", n: 1, e: lit(5)}}),
+			one(eff, &eStmt{k: "loop", e: &eExpr{k: "fld", n: 0}, a: &eStmt{k: "loop", e: &eExpr{k: "arg"}, a: &eStmt{k: "setloc", n: 1, e: lit(5)}}}),
 			one(eff, &eStmt{k: "setarr", n: 1, m: 3, e: lit(1)}),
 			one(eff, &eStmt{k: "setbuf", s: eSRef{k: "sa", n: 0}, e: lit(1)}),
 			one(eff, &eStmt{k: "setbuf", s: eSRef{k: "sa", n: 1}, e: lit(1)}),
@@ -581,6 +650,8 @@ func effCorners() [][]eMethod {
 					[]eMethod{callee, {eff, &eStmt{k: "setloc", n: 0, e: &eExpr{k: "call", mark: mk, m: 0, l: lit(2)}}, lit(0)}},
 					[]eMethod{callee, {eff, &eStmt{k: "setloc", n: 0, e: &eExpr{k: "add", l: &eExpr{k: "call", mark: mk, m: 0, l: lit(2)}, r: lit(1)}}, lit(0)}},
 					[]eMethod{callee, {eff, &eStmt{k: "ite", e: &eExpr{k: "call", mark: mk, m: 0, l: lit(2)}, a: skip, b: skip}, lit(0)}},
+					[]eMethod{callee, {eff, &eStmt{k: "loop", e: &eExpr{k: "call", mark: mk, m: 0, l: lit(2)}, a: skip}, lit(0)}},
+					[]eMethod{callee, {eff, &eStmt{k: "loop", e: &eExpr{k: "arg"}, a: &eStmt{k: "calls", mark: mk, m: 0, e: lit(2)}}, lit(0)}},
 					[]eMethod{callee, {eff, skip, &eExpr{k: "call", mark: mk, m: 0, l: lit(2)}}},
 					[]eMethod{callee, {eff, &eStmt{k: "calls", mark: mk, m: 0, e: &eExpr{k: "call", mark: mk, m: 0, l: lit(2)}}, lit(0)}},
 					// a call as the lower / upper bound of a slice expression, bare and nested
